@@ -26,6 +26,8 @@ struct Block
 std::map<void*, Block> g_blocks;      // every block handed to storage.c in this case
 std::vector<void*> g_quarantine;      // released blocks: zero-filled, really freed at case end
 bool g_ledger_on = false;
+long g_fail_in = 0;       // >0: the g_fail_in-th allocation request from now fails (one shot)
+bool g_fail_fired = false; // an injected failure was delivered during the current operation
 const char* g_ledger_err = nullptr;   // first misuse seen (double free, foreign pointer)
 char g_ledger_errbuf[200];
 
@@ -39,9 +41,21 @@ ledger_err(const char* what, void* p)
 }
 } // namespace
 
+static bool
+inject_failure()
+{
+    if (g_ledger_on && g_fail_in > 0 && --g_fail_in == 0) {
+        g_fail_fired = true;
+        return true;
+    }
+    return false;
+}
+
 extern "C" void*
 vh_malloc(size_t n)
 {
+    if (inject_failure())
+        return nullptr;
     void* p = malloc(n ? n : 1);
     if (g_ledger_on && p)
         g_blocks[p] = Block{ n, true };
@@ -83,6 +97,8 @@ vh_realloc(void* p, size_t n)
         ledger_err(it == g_blocks.end() ? "realloc of a foreign pointer" : "realloc of a freed block", p);
         return nullptr;
     }
+    if (inject_failure())
+        return nullptr; // the old block stays valid and owned by the caller
     void* q = malloc(n ? n : 1); // always move: stale aliases of the old block become visible
     size_t old = it->second.size;
     memcpy(q, p, old < n ? old : n);
@@ -138,6 +154,7 @@ enum
     K_SET_MULTI,
     K_COPY,
     K_DESTROY,
+    K_FAIL_ALLOC,
     K_COUNT
 };
 
@@ -146,6 +163,7 @@ const VhKindSpec kKinds[K_COUNT] = {
     { "SET_META", 2, 255, 65535, 0, 0 },          { "SET_KEYS", 2, 255, 65535, 65535, 0 },
     { "SET_DIM", 5, 255, 65535, 65535, 65535 },   { "SET_MULTI", 1, 255, 0, 0, 0 },
     { "COPY", 6, 255, 0, 0, 0 },                  { "DESTROY", 2, 255, 0, 0, 0 },
+    { "FAIL_ALLOC", 1, 255, 0, 0, 0 },
 };
 
 enum
@@ -163,6 +181,9 @@ enum
     CL_STR_LONG,
     CL_STR_GROW,
     CL_DESTROY_THEN_REUSE,
+    CL_ALLOC_FAIL,
+    CL_ALLOC_FAIL_GROW,
+    CL_ALLOC_FAIL_COPY,
 };
 
 const VhSpec kSpec = {
@@ -173,9 +194,11 @@ const VhSpec kSpec = {
     { "C13", nullptr },
     { "copy", "copy_src_has_dims", "copy_dst_has_dims", "copy_both_ways", "copy_into_fresh", "set_dim_ok",
       "set_dim_twice_same_index", "set_dim_rejected", "string_null", "string_unterminated", "string_long",
-      "string_grows", "destroy_then_reuse", nullptr },
+      "string_grows", "destroy_then_reuse", "allocation_failure_delivered", "allocation_failure_while_growing_a_string",
+      "allocation_failure_inside_copy", nullptr },
     { "sequence contains a copy whose source has >=1 dimension, or copies in both directions between the same two "
-      "objects, or set_dimension applied twice to one index; distinct = distinct decoded operation sequence",
+      "objects, or set_dimension applied twice to one index, or an injected allocation failure delivered inside a call; "
+      "distinct = distinct decoded operation sequence",
       nullptr },
 };
 
@@ -196,6 +219,9 @@ struct Ctx
     MProps model[3];
     bool copied[3][3] = { { false } };
     bool destroyed_once[3] = { false };
+    // an injected allocation failure hit a call on this object: its field values are unspecified from
+    // then on (the call reported failure), but it must stay structurally valid and releasable
+    bool degraded[3] = { false };
 };
 
 // Build an input string from a 16-bit selector.  Exact-size heap block, so any over-read by the
@@ -348,9 +374,44 @@ check_all(Ctx& x, const char* where)
                             what, ins.first->second, slot);
         return false;
     };
+    // structural validity of a String whose value is unspecified (object hit by an allocation failure)
+    auto valid_string = [&](int slot, const char* field, const String& st) -> bool {
+        if (!st.str)
+            return false; // nothing stored
+        if (st.is_ref != 0)
+            return x.c.fail("C13", "string-owned", field, "%s: slot %d %s is_ref=%d after a failed call, expected an owned copy or NULL", where,
+                            slot, field, st.is_ref);
+        if (claim(st.str, slot, field))
+            return true;
+        auto it = g_blocks.find(st.str);
+        if (it->second.size < st.nbytes)
+            return x.c.fail("C13", "string-length", field, "%s: slot %d %s recorded length %zu exceeds its block (%zu) after a failed call", where,
+                            slot, field, st.nbytes, it->second.size);
+        if (st.nbytes == 0 || st.str[st.nbytes - 1] != '\0')
+            return x.c.fail("C13", "string-terminated", field, "%s: slot %d %s not NUL-terminated at its recorded length %zu after a failed call",
+                            where, slot, field, st.nbytes);
+        return false;
+    };
     for (int i = 0; i < 3; ++i) {
         StorageProperties& o = x.obj[i];
         MProps& m = x.model[i];
+        if (x.degraded[i]) {
+            for (int k = 0; k < 4; ++k)
+                if (valid_string(i, kStrName[k], *str_of(o, k)))
+                    return true;
+            if (o.acquisition_dimensions.data) {
+                if (claim(o.acquisition_dimensions.data, i, "dimension array"))
+                    return true;
+                auto it = g_blocks.find(o.acquisition_dimensions.data);
+                if (it->second.size < o.acquisition_dimensions.size * sizeof(StorageDimension))
+                    return x.c.fail("C13", "dims-model", "array-size", "%s: slot %d dimension array block smaller than its recorded size %zu",
+                                    where, i, (size_t)o.acquisition_dimensions.size);
+                for (size_t d = 0; d < o.acquisition_dimensions.size; ++d)
+                    if (valid_string(i, "dimension.name", o.acquisition_dimensions.data[d].name))
+                        return true;
+            }
+            continue;
+        }
         for (int k = 0; k < 4; ++k) {
             if (check_string(x, where, i, kStrName[k], *str_of(o, k), m.s[k]))
                 return true;
@@ -425,6 +486,7 @@ do_destroy(Ctx& x, int s)
         }
     }
     x.destroyed_once[s] = true;
+    x.degraded[s] = false;
 }
 
 } // namespace
@@ -447,16 +509,41 @@ vh_run(const VhTok* tape, size_t n, VhReport* rep)
     g_ledger_err = nullptr;
     g_ledger_on = true;
 
+    g_fail_in = 0;
+    g_fail_fired = false;
+    // outcome of a call that an injected allocation failure may have hit; returns true when the
+    // ordinary model update must be skipped (object is / stays in the unspecified-value state)
+    auto after_call = [&](int ok, int slot, const char* checkname, const char* disc, const char* what) -> bool {
+        if (g_fail_fired) {
+            x.c.cls(CL_ALLOC_FAIL);
+            x.c.nontrivial(0);
+            x.c.trace("   (injected allocation failure delivered; call returned %d)", ok);
+            x.degraded[slot] = true;
+            x.model[slot] = MProps();
+            check_all(x, "after a call hit by an allocation failure");
+            return true;
+        }
+        if (!ok) {
+            x.c.fail("C13", checkname, disc, "%s", what);
+            return true;
+        }
+        if (x.degraded[slot]) {
+            check_all(x, "after a call on an object in the unspecified-value state");
+            return true;
+        }
+        return false;
+    };
     for (size_t ti = 0; ti < n && !x.c.ended; ++ti) {
         const VhTok& t = tape[ti];
         int kind = t.kind % K_COUNT;
         int s = t.a % 3;
         rep->steps++;
+        g_fail_fired = false;
         x.c.mix(kind * 1000003u + t.a);
         x.c.mix(((uint64_t)t.b << 32) | ((uint64_t)t.c << 16) | t.d);
         switch (kind) {
             case K_INIT: {
-                if (x.model[s].owns()) {
+                if (x.model[s].owns() || x.degraded[s]) {
                     x.c.trace("DESTROY %d   (implicit, before INIT)", s);
                     do_destroy(x, s);
                     if (x.c.ended)
@@ -474,10 +561,8 @@ vh_run(const VhTok* tape, size_t n, VhReport* rep)
                 x.c.trace("INIT %d uri=%s meta=%s ffid=%u scale=(%g,%g) ndims=%d", s, uri.desc.c_str(), meta.desc.c_str(), ffid,
                           sc.x, sc.y, ndims);
                 int ok = storage_properties_init(&x.obj[s], ffid, uri.ptr, uri.nbytes, meta.ptr, meta.nbytes, sc, (uint8_t)ndims);
-                if (!ok) {
-                    x.c.fail("C13", "init-status", "init", "storage_properties_init returned 0 for valid arguments");
+                if (after_call(ok, s, "init-status", "init", "storage_properties_init returned 0 for valid arguments"))
                     break;
-                }
                 MProps& m = x.model[s];
                 m = MProps();
                 m.s[0] = stored_value(uri.ptr, uri.nbytes);
@@ -500,10 +585,10 @@ vh_run(const VhTok* tape, size_t n, VhReport* rep)
                     x.c.cls(CL_STR_GROW);
                 int ok = k == 0 ? storage_properties_set_uri(&x.obj[s], in.ptr, in.nbytes)
                                 : storage_properties_set_external_metadata(&x.obj[s], in.ptr, in.nbytes);
-                if (!ok) {
-                    x.c.fail("C13", "set-status", kStrName[k], "setter returned 0");
+                if (g_fail_fired && x.model[s].s[k] && v.size() > x.model[s].s[k]->size())
+                    x.c.cls(CL_ALLOC_FAIL_GROW);
+                if (after_call(ok, s, "set-status", kStrName[k], "setter returned 0"))
                     break;
-                }
                 x.model[s].s[k] = v;
                 check_all(x, "after set string");
                 break;
@@ -514,10 +599,8 @@ vh_run(const VhTok* tape, size_t n, VhReport* rep)
                 make_string(x, t.c, b, false);
                 x.c.trace("SET_KEYS %d key=%s secret=%s", s, a.desc.c_str(), b.desc.c_str());
                 int ok = storage_properties_set_access_key_and_secret(&x.obj[s], a.ptr, a.nbytes, b.ptr, b.nbytes);
-                if (!ok) {
-                    x.c.fail("C13", "set-status", "keys", "setter returned 0");
+                if (after_call(ok, s, "set-status", "keys", "setter returned 0"))
                     break;
-                }
                 x.model[s].s[2] = stored_value(a.ptr, a.nbytes);
                 x.model[s].s[3] = stored_value(b.ptr, b.nbytes);
                 check_all(x, "after set keys");
@@ -526,6 +609,8 @@ vh_run(const VhTok* tape, size_t n, VhReport* rep)
             case K_SET_DIM: {
                 MProps& m = x.model[s];
                 int nd = (int)m.dims.size();
+                if (x.degraded[s])
+                    nd = x.obj[s].acquisition_dimensions.data ? (int)x.obj[s].acquisition_dimensions.size : 0;
                 unsigned isel = t.a / 3; // 0..85
                 int index;
                 if (isel % 16 == 15)
@@ -568,6 +653,15 @@ vh_run(const VhTok* tape, size_t n, VhReport* rep)
                 x.c.trace("SET_DIM %d index=%d name=%s(nbytes=%zu) kind=%d array=%u chunk=%u shard=%u  -> expect %s", s, index,
                           ndesc, nbytes, kindv, arr, chunk, shard, expect_ok ? "ok" : "rejected");
                 int ok = storage_properties_set_dimension(&x.obj[s], index, nptr, nbytes, (DimensionType)kindv, arr, chunk, shard);
+                if (g_fail_fired || x.degraded[s]) {
+                    if (!g_fail_fired && (ok != 0) != expect_ok) {
+                        x.c.fail("C13", "set-dimension-status", expect_ok ? "valid-rejected" : "invalid-accepted",
+                                 "set_dimension(index=%d of %d, kind=%d) returned %d", index, nd, kindv, ok);
+                        break;
+                    }
+                    after_call(1, s, "", "", "");
+                    break;
+                }
                 if ((ok != 0) != expect_ok) {
                     x.c.fail("C13", "set-dimension-status", expect_ok ? "valid-rejected" : "invalid-accepted",
                              "set_dimension(index=%d of %d, kind=%d) returned %d", index, nd, kindv, ok);
@@ -593,10 +687,8 @@ vh_run(const VhTok* tape, size_t n, VhReport* rep)
             case K_SET_MULTI: {
                 uint8_t v = (uint8_t)((t.a / 3) & 1);
                 x.c.trace("SET_MULTISCALE %d %d", s, v);
-                if (!storage_properties_set_enable_multiscale(&x.obj[s], v)) {
-                    x.c.fail("C13", "set-status", "multiscale", "setter returned 0");
+                if (after_call(storage_properties_set_enable_multiscale(&x.obj[s], v), s, "set-status", "multiscale", "setter returned 0"))
                     break;
-                }
                 x.model[s].multiscale = v;
                 check_all(x, "after set multiscale");
                 break;
@@ -623,14 +715,18 @@ vh_run(const VhTok* tape, size_t n, VhReport* rep)
                 StorageProperties before;
                 memcpy(&before, &x.obj[src], sizeof before);
                 int ok = storage_properties_copy(&x.obj[dst], &x.obj[src]);
-                if (!ok) {
-                    x.c.fail("C13", "copy-status", "copy", "storage_properties_copy returned 0");
-                    break;
-                }
                 if (memcmp(&before, &x.obj[src], sizeof before) != 0) {
                     x.c.fail("C13", "copy-source-touched", "struct", "copy modified the source object itself");
                     break;
                 }
+                if (g_fail_fired)
+                    x.c.cls(CL_ALLOC_FAIL_COPY);
+                if (ok && !g_fail_fired && !x.degraded[src])
+                    x.degraded[dst] = false; // a complete copy of a fully specified source specifies every field again
+                else if (ok && !g_fail_fired && x.degraded[src])
+                    x.degraded[dst] = true;
+                if (after_call(ok, dst, "copy-status", "copy", "storage_properties_copy returned 0"))
+                    break;
                 // model: destination becomes equal to the source; unset strings become "".
                 MProps& md = x.model[dst];
                 const MProps& ms = x.model[src];
@@ -649,6 +745,11 @@ vh_run(const VhTok* tape, size_t n, VhReport* rep)
                 check_all(x, "after copy");
                 break;
             }
+            case K_FAIL_ALLOC: {
+                g_fail_in = 1 + (t.a / 3) % 8;
+                x.c.trace("FAIL_ALLOC: allocation request number %ld from now fails", g_fail_in);
+                break;
+            }
             case K_DESTROY: {
                 x.c.trace("DESTROY %d", s);
                 do_destroy(x, s);
@@ -660,6 +761,7 @@ vh_run(const VhTok* tape, size_t n, VhReport* rep)
     }
     if (!x.c.ended) {
         x.c.trace("END: destroy all");
+        g_fail_in = 0;
         for (int s = 0; s < 3 && !x.c.ended; ++s)
             do_destroy(x, s);
         if (!x.c.ended)
